@@ -96,3 +96,82 @@ def run_outputs(prog):
     if not (callers_a and callers_a <= callers_b):
         res.viol("chordsv2-callers", g.loc, "chords-v2 outputs are not added wherever the layer action outputs are")
     return res
+
+
+def early_loop_exits(f):
+    """for-loops of f that can be left before the iterator is exhausted by something other than an error
+    return (`?`): [(line of the loop, line of the exit)]"""
+    from kq.core import callee_written
+    out = []
+    for nb, t in f.calls():
+        if not (callee_written(t) or "").endswith("Iterator::next") or "desugar:ForLoop" not in (t.get("mac") or []):
+            continue
+        sw_b = t.get("t")
+        if sw_b is None:
+            continue
+        # follow to the switch on the Option discriminant
+        b = sw_b
+        for _ in range(4):
+            tt = f.term(b)
+            if tt["k"] == "switch":
+                break
+            ss = f.succs(b)
+            if len(ss) != 1:
+                break
+            b = ss[0]
+        tt = f.term(b)
+        if tt["k"] != "switch":
+            continue
+        some_t = [tb for v, tb in tt["ts"] if v == 1]
+        none_t = [tb for v, tb in tt["ts"] if v == 0]
+        if not some_t or not none_t:
+            continue
+        body = f.reach_from(some_t[0], avoid=[nb])
+        # blocks on the way back to the header belong to the loop
+        header_pred = {p_ for p_ in body if nb in f.succs(p_)}
+        loop = {x for x in body if any(nb in f.reach_from(x, avoid=[]) for _ in [0])}
+        loop = {x for x in body if nb in f.reach_from(x)}
+        for x in sorted(loop):
+            for s_ in f.succs(x):
+                if s_ in loop or s_ == nb or f.term(s_)["k"] == "unreachable":
+                    continue
+                # leaving the loop: is it an error propagation?
+                way = f.reach_from(s_, avoid=[nb])
+                is_err = False
+                for y in [x] + sorted(way):
+                    ty = f.term(y)
+                    if ty["k"] == "call" and "from_residual" in (callee_name(ty) or ""):
+                        is_err = True
+                    for st in f.stmts(y):
+                        if st["k"] == "assign" and st["rv"]["k"] == "agg" and st["rv"].get("adt") == "core::result::Result" and st["rv"].get("v") == "Err" and st["p"]["l"] == 0:
+                            is_err = True
+                if not is_err:
+                    out.append((t.get("ln"), f.line_of(x)))
+    return out
+
+
+def run_collect(prog):
+    """R-RPT-COLLECT: the loops that build the repeat table visit every element: none of them is left early (break /
+    return) except to report an error."""
+    res = RuleResult("R-RPT-COLLECT", "the repeat-table builders do not stop collecting early", floor=5)
+    roots = ["kanata_parser::cfg::key_outputs::create_key_outputs"]
+    reach = prog.reachable_from(roots)
+    n = 0
+    for nm in sorted(reach):
+        for f in prog.by_norm.get(nm, []):
+            if f.crate != "kanata_parser" or f.derive:
+                continue
+            if not (f.norm.startswith("kanata_parser::cfg::key_outputs::") or f.norm.startswith("kanata_parser::cfg::key_override::")
+                    or f.norm == roots[0]):
+                continue
+            res.fn(f)
+            ex = early_loop_exits(f)
+            loops = sum(1 for _, t in f.calls() if "desugar:ForLoop" in (t.get("mac") or []) and (callee_name(t) or "").endswith("::next"))
+            n += loops
+            res.inst("loops/" + f.norm, loops=loops, early_exits=len(ex))
+            res.oblige(not ex)
+            for (ll, xl) in ex[:3]:
+                res.viol("early-exit/" + f.norm, "%s:%s" % (f.file, xl),
+                         "the loop at line %s of %s can be left before all elements were visited: outputs of the remaining elements are "
+                         "missing from the repeat table, so OS repeats for them are swallowed" % (ll, f.norm.split("::")[-1]))
+    return res
